@@ -1,3 +1,19 @@
+// C02: <float.h> must describe the formats the compiler implements
+// (C11 5.2.4.2.2): float = binary32, double = binary64, long double = x87
+// extended (64-bit significand, 15-bit exponent).
+// Expected output (gcc -std=c11):
+//   sizeof FLT_MAX 4 FLT_MIN 4 FLT_EPSILON 4 FLT_TRUE_MIN 4
+//   sizeof LDBL_MAX 16 LDBL_MIN 16 LDBL_EPSILON 16 LDBL_TRUE_MIN 16
+//   LDBL_MANT_DIG 64 LDBL_DIG 18 LDBL_MAX_EXP 16384 LDBL_MIN_EXP -16381 LDBL_MAX_10_EXP 4932 LDBL_MIN_10_EXP -4931
+//   LDBL_MAX 0xf.fffffffffffffffp+16380 LDBL_MIN 0x8p-16385 LDBL_EPSILON 0x8p-66 LDBL_TRUE_MIN 0x0.000000000000001p-16385
+//   1+eps/2 != 1: 0
+//   third*FLT_EPSILON is float: 4
+//   FLT_DECIMAL_DIG 9 DBL_DECIMAL_DIG 17 LDBL_DECIMAL_DIG 21
+//   HAS_SUBNORM 1 1 1
+//   DECIMAL_DIG 21 FLT_EVAL_METHOD 0 FLT_RADIX 2 FLT_ROUNDS 1
+// chibicc before the fix: sizeof 8 everywhere, LDBL_MANT_DIG 53 LDBL_DIG 15
+// LDBL_MAX_EXP 1024 ..., LDBL_MAX = DBL_MAX, "1+eps/2 != 1: 1",
+// "FLT_DECIMAL_DIG undefined", "FLT_HAS_SUBNORM undefined".
 #include <stdio.h>
 #include <float.h>
 int main(void) {
